@@ -165,6 +165,7 @@ func genC18(t *rapid.T, tier string) (*World, any) {
 			{"crs/util/a/nested", "", "crs/util/a/nested"}, {"crs/util/a/nested/deep", "er", "crs/util/a/nested"}, {"crs/util/a/nested", "..", "crs"},
 			{"other", "../crs/rules", "crs"}, {"crs", "../other/rules", "other"}, {"", "crs/regex-assembly", "crs"}, {"", "crs/regex-assembly/include", "crs"},
 			{"", "empty/x/y", ""}, {"", "empty", ""}, {"empty", "..", ""},
+			{"crs", "../empty/x/y", ""}, {"crs/util/a/nested", "../../../../empty", ""}, {"other", "../empty/x", ""},
 			{"crs/rules", "", "crs/rules"}, {"crs/util/a/b", "", "crs/util/a/b"}, // without -d the working directory itself is the root
 			{"", "crs/util/a/nested/regex-assembly", "crs/util/a/nested"},
 			{"", "crs/regex-assembly-plugins/inner", "crs/regex-assembly-plugins/inner"}, {"", "crs/regex-assembly-plugins/inner/rules", "crs/regex-assembly-plugins/inner"},
